@@ -39,7 +39,7 @@ class Opts:
 
 def S(W, d, o, i):
     # a plain list is not instrumented: use it on both sides so that use numbers stay aligned
-    return W.source(d.srcs[i], o.fl[i] if (W.mode == "a" or o.fl[i] == "list") else "iter")
+    return W.source(d.srcs[i], o.fl[i] if (W.mode == "a" or o.fl[i] in ("list", "llist")) else "iter")
 
 
 def F(W, o, name, impl):
@@ -237,6 +237,16 @@ _reg(Tool("filterfalse_none", (1, 1), lambda W, d, o: A.filterfalse(None, S(W, d
 _reg(Tool("takewhile", (1, 1), lambda W, d, o: A.takewhile(F(W, o, "p", _pred), S(W, d, o, 0)), lambda W, d, o: itertools.takewhile(F(W, o, "p", _pred), S(W, d, o, 0)), fn=True))
 _reg(Tool("dropwhile", (1, 1), lambda W, d, o: A.dropwhile(F(W, o, "p", _pred), S(W, d, o, 0)), lambda W, d, o: itertools.dropwhile(F(W, o, "p", _pred), S(W, d, o, 0)), fn=True))
 _reg(Tool("compress", (2, 2), lambda W, d, o: A.compress(S(W, d, o, 0), S(W, d, o, 1)), lambda W, d, o: itertools.compress(S(W, d, o, 0), S(W, d, o, 1))))
+def _shared(f):
+    def build(W, d, o):
+        it = S(W, d, o, 0)
+        return f(it, it)
+
+    return build
+
+
+_reg(Tool("compress_shared", (1, 1), _shared(A.compress), _shared(itertools.compress)))
+_reg(Tool("zip_shared", (1, 1), _shared(A.zip), _shared(builtins.zip)))
 _reg(Tool("enumerate", (1, 1), lambda W, d, o: A.enumerate(S(W, d, o, 0), d.p[0]), lambda W, d, o: builtins.enumerate(S(W, d, o, 0), d.p[0]), ints=True, spec=lambda W, d, o: enumerate_spec(S(W, d, o, 0), d.p[0])))
 _reg(Tool("enumerate0", (1, 1), lambda W, d, o: A.enumerate(S(W, d, o, 0)), lambda W, d, o: builtins.enumerate(S(W, d, o, 0))))
 _reg(Tool("iter_sentinel", (1, 1), lambda W, d, o: A.iter(_pop_iter(W, d, o, 0), d.sentinel), lambda W, d, o: builtins.iter(_pop_iter(W, d, o, 0), d.sentinel), fn=True))
